@@ -169,12 +169,6 @@ def demoSmall : Path := .mk (some "my-host:5989".toList) (some "root/cimv2".toLi
   (.cons "Name".toList (.str "a\"b\\,=".toList) (.cons "I".toList (.int (-42))
     (.cons "Ref".toList (.ref (.mk none (some "root".toList) "CIM_Bar".toList (.cons "X".toList (.bool true) .nil))) .nil)))
 
-theorem isValueError_eq {r : Except PyExc Path} (h : isValueError r = true) : r = .error .valueError := by
-  unfold isValueError at h
-  split at h
-  · rfl
-  · cases h
-
 example : TabOk asciiTab := asciiTabOk
 example : PathSafe asciiTab .standard demoSmall := by
   have head1 : HeadSafe asciiTab .standard (some "my-host:5989".toList) (some "root/cimv2".toList) "CIM_Foo".toList :=
@@ -204,6 +198,19 @@ theorem C07_roundtrip_fails_at_namespace_chars :
 theorem C07_roundtrip_fails_at_historical_host_without_namespace :
     toUri asciiTab .historical (.mk (some ['h']) none ['C'] (.cons ['k'] (.int 1) .nil)) = "//h/C.k=1".toList ∧
     isValueError (fromUri asciiTab "//h/C.k=1".toList) = true := by decide +kernel
+
+/-- F4: canonical format, a class name with U+0130: `lower()` gives `i` + U+0307 (not `\w`) — printed, not accepted
+    (the table is what Python says about these two characters) -/
+def dotITab : Tab :=
+  { word := fun c => asciiWord c || c == Char.ofNat 0x130,
+    lower := fun c => if c == Char.ofNat 0x130 then ['i', Char.ofNat 0x307] else [lowerAscii c],
+    fold := fun c => if c == Char.ofNat 0x130 then ['i', Char.ofNat 0x307] else [lowerAscii c] }
+
+theorem C07_roundtrip_fails_at_dotted_capital_I :
+    isValueError (fromUri dotITab (toUri dotITab .canonical
+      (.mk none none ['C', Char.ofNat 0x130] (.cons ['k'] (.int 1) .nil)))) = true ∧
+    okIs (fromUri dotITab (toUri dotITab .standard (.mk none none ['C', Char.ofNat 0x130] (.cons ['k'] (.int 1) .nil))))
+      (.mk none none ['C', Char.ofNat 0x130] (.cons ['k'] (.int 1) .nil)) = true := by decide +kernel
 
 /-- documented limit: a string that reads as a URI comes back as a reference -/
 theorem C07_roundtrip_limit_string_reads_as_uri :
